@@ -43,7 +43,7 @@
 #endif
 
 enum { OP_INFO = 0, OP_HASH_STREAM, OP_HASH_ONESHOT, OP_HASH_HEX, OP_HMAC_STREAM,
-       OP_HMAC_ONESHOT, OP_HMAC_GET, OP_HMAC_HEX, OP_INJECT, OP_HMAC_STACKSCAN, OP_RADIUS_MA_STACKSCAN };
+       OP_HMAC_ONESHOT, OP_HMAC_GET, OP_HMAC_HEX, OP_INJECT, OP_HMAC_STACKSCAN, OP_RADIUS_MA_STACKSCAN, OP_HASH_STACKSCAN };
 enum { F_NATIVE = 0, F_GENERIC, F_SSE, F_AVX, F_SHANI };
 #define NALG 8
 #define CANARY 0xA5
@@ -605,6 +605,38 @@ static void op_hmac_stackscan(vin_t *in, vout_t *o) {
 	munmap(stk, SS_SIZE);
 	free(ss.out); free(kbase); free(mbase); free(cbase);
 }
+/* One-shot hash entry points (their context is an automatic object) on the private stack:
+ * u8 alg, u8 bytes_arg, u8 hex, blob msg, u8 n, n * blob needle -> u8 status, blob digest/text, n * i64 */
+static struct { int alg, ba, hex; const uint8_t *m; size_t n; uint8_t *out; } hs;
+static void hs_worker(void) {
+	size_t rsz;
+	if (hs.hex) h_hex(hs.alg, hs.ba, (const char *)hs.m, hs.n, (char *)hs.out, &rsz);
+	else h_oneshot(hs.alg, hs.ba, hs.m, hs.n, hs.out, &rsz);
+}
+static void op_hash_stackscan(vin_t *in, vout_t *o) {
+	int alg = vin_u8(in) % NALG, ba = vin_u8(in), hex = vin_u8(in);
+	size_t n, osz, i, nn; const uint8_t *msg = vin_blob(in, &n); void *mbase; uint8_t *stk;
+	nn = vin_u8(in);
+	if (in->bad) { vout_u8(o, 2); return; }
+	osz = hex ? hsz[alg] * 2 + 1 : hsz[alg];
+	stk = mmap(NULL, SS_SIZE, PROT_READ | PROT_WRITE, MAP_PRIVATE | MAP_ANONYMOUS, -1, 0);
+	if (stk == MAP_FAILED) { vout_u8(o, 2); return; }
+	hs.alg = alg; hs.ba = ba; hs.hex = hex; hs.m = place(msg, n, 0, &mbase); hs.n = n; hs.out = out_alloc(osz);
+	getcontext(&ss_work);
+	ss_work.uc_stack.ss_sp = stk; ss_work.uc_stack.ss_size = SS_SIZE; ss_work.uc_link = &ss_main;
+	makecontext(&ss_work, hs_worker, 0);
+	swapcontext(&ss_main, &ss_work);
+	vout_u8(o, 0); vout_blob(o, hs.out, osz);
+	for (i = 0; i < nn; i++) {
+		size_t ln; const uint8_t *nd = vin_blob(in, &ln), *f;
+		if (in->bad || ln == 0) { vout_i64(o, -2); continue; }
+		f = memmem(stk, SS_SIZE, nd, ln);
+		vout_i64(o, f ? (int64_t)((stk + SS_SIZE) - f) : -1);
+	}
+	munmap(stk, SS_SIZE);
+	free(hs.out); free(mbase);
+}
+
 /* RADIUS Message-Authenticator on the private stack: u8 inside, u8 have_req, blob packet, u32 attr offset, blob key,
  * blob request packet, u8 n, n * blob needle -> u8 status, i32 rc, blob msg_authenticator(16), n * i64 */
 static struct { uint8_t *pkt; size_t attr_off; uint8_t *key; size_t kn; int inside; uint8_t *req; uint8_t *out; int rc; } rs;
@@ -642,6 +674,7 @@ static void op_radius_ma_stackscan(vin_t *in, vout_t *o) {
 #else
 static void op_hmac_stackscan(vin_t *in, vout_t *o) { (void)in; vout_u8(o, 3); }
 static void op_radius_ma_stackscan(vin_t *in, vout_t *o) { (void)in; vout_u8(o, 3); }
+static void op_hash_stackscan(vin_t *in, vout_t *o) { (void)in; vout_u8(o, 3); }
 #endif
 
 int main(void) {
@@ -661,6 +694,7 @@ int main(void) {
 		case OP_INJECT: op_inject(&in, &o); break;
 		case OP_HMAC_STACKSCAN: op_hmac_stackscan(&in, &o); break;
 		case OP_RADIUS_MA_STACKSCAN: op_radius_ma_stackscan(&in, &o); break;
+		case OP_HASH_STACKSCAN: op_hash_stackscan(&in, &o); break;
 		default: vout_u8(&o, 2); break;
 		}
 		vout_flush(&o);
